@@ -7,7 +7,8 @@ From Coq Require Import Permutation.
 (* ---------------------------------------------------------------------------------------------- *)
 (* relations *)
 
-(* valid_tree t: every node is a fresh object without null attribute values, siblings have distinct names, and
+(* valid_tree t: every node is a fresh object without null attribute values and with a non-empty name, siblings
+   have distinct names, and
    the name of a node that has children is carried by no other node (repeated names only at leaves).
    rows_of b t: the relations of t, parents in pre-order, children in sibling order (b: with a root row).
    presentable b t: b = true, or the root has children and no attributes (they would need a root row). *)
@@ -74,6 +75,13 @@ Theorem C13_nested_prop : forall nk d,
   nd_keys_ok d = true -> prop_nested nk d (out_of (nested_dict_to_tree nk d)) = true.
 Proof. exact nested_prop. Qed.
 Print Assumptions C13_nested_prop.
+
+(* conversely, what does not have the documented form (no string name, children not a list, two children of the
+   same name) is refused *)
+Theorem C13_nested_illformed_refused : forall nk d,
+  nd_keys_ok d = true -> mirror nk d = None -> exists e, nested_dict_to_tree nk d = Raise e.
+Proof. exact nested_refused_top. Qed.
+Print Assumptions C13_nested_illformed_refused.
 
 (* ---------------------------------------------------------------------------------------------- *)
 (* heap lists *)
